@@ -37,6 +37,13 @@ const (
 	c17EmptySlack = 64 << 10
 )
 
+func c17KeyLen[K any](k *kinds.Kind[K], c K, id string) int {
+	if k.Len != nil {
+		return k.Len(c)
+	}
+	return len(id)
+}
+
 type c17phase struct {
 	name string
 	n    int
@@ -57,7 +64,7 @@ func c17Kind[K any](res *ev.Result, unit string, k *kinds.Kind[K], seed uint64, 
 				break
 			}
 			id := k.ID(c)
-			if seen[id] || len(id) > c17MaxKeyBytes {
+			if seen[id] || c17KeyLen(k, c, id) > c17MaxKeyBytes {
 				continue
 			}
 			if ok, _ := k.Storable(scratchModel, c); !ok {
@@ -84,7 +91,7 @@ func c17Kind[K any](res *ev.Result, unit string, k *kinds.Kind[K], seed uint64, 
 	for tries := 0; len(fresh) < 4096 && tries < 40; tries++ {
 		for _, c := range k.Pool(r, 600) {
 			id := k.ID(c)
-			if seen[id] || len(id) > c17MaxKeyBytes {
+			if seen[id] || c17KeyLen(k, c, id) > c17MaxKeyBytes {
 				continue
 			}
 			if ok, _ := k.Storable(scratchModel, c); !ok {
